@@ -46,56 +46,20 @@ Ltac bool_to_prop :=
 
 (* ---------------------------------------------------------------- internal/decoder/errors *)
 
-(* calcBounds without the wrap-arounds; equal to the generated function whenever size <= max_int - 16 *)
-Definition calcBounds_nowrap (size pos : Z) : Z * Z * Z * Z :=
-  if (size <=? pos) || (pos <? 0) then (0, 0, size, 0) else
-  let lbound := pos - 16 in
-  let rbound := pos + 16 in
-  let '(lbound, rbound, i) := if lbound <? 0 then (0, rbound - lbound, 16 + lbound) else (lbound, rbound, 16) in
-  let '(lbound, rbound, i) :=
-    if size <? rbound then
-      let n := rbound - size in
-      if n <? lbound then (lbound - n, size, i + n) else (lbound, size, i)
-    else (lbound, rbound, i) in
-  (lbound, errors_clamp_zero i, rbound, errors_clamp_zero (rbound - lbound - i - 1)).
-
-Lemma calcBounds_eq_nowrap : forall size pos,
-  0 <= size <= max_int - 16 -> int_ok pos ->
-  errors_calcBounds size pos = calcBounds_nowrap size pos.
-Proof.
-  unfold max_int, int_ok. intros size pos Hs Hp.
-  unfold errors_calcBounds, calcBounds_nowrap.
-  destruct ((size <=? pos) || (pos <? 0)) eqn:E0; [reflexivity|].
-  bool_to_prop.
-  rewrite (wrapS_id (pos - 16)) by (unfold int_ok; lia).
-  rewrite (wrapS_id (pos + 16)) by (unfold int_ok; lia).
-  destruct (pos - 16 <? 0) eqn:E1; bool_to_prop.
-  - rewrite (wrapS_id (pos + 16 - (pos - 16))) by (unfold int_ok; lia).
-    rewrite (wrapS_id (16 + (pos - 16))) by (unfold int_ok; lia).
-    replace (pos + 16 - (pos - 16)) with 32 by lia.
-    destruct (size <? 32) eqn:E2; bool_to_prop.
-    + rewrite (wrapS_id (32 - size)) by (unfold int_ok; lia).
-      destruct (32 - size <? 0) eqn:E3; bool_to_prop; [lia|].
-      unfold errors_clamp_zero. unwrapS. reflexivity.
-    + unfold errors_clamp_zero. unwrapS. reflexivity.
-  - destruct (size <? pos + 16) eqn:E2; bool_to_prop.
-    + rewrite (wrapS_id (pos + 16 - size)) by (unfold int_ok; lia).
-      destruct (pos + 16 - size <? pos - 16) eqn:E3; bool_to_prop.
-      * unfold errors_clamp_zero. unwrapS. reflexivity.
-      * unfold errors_clamp_zero. unwrapS. reflexivity.
-    + unfold errors_clamp_zero. unwrapS. reflexivity.
-Qed.
+(* unfolds the generated text: every wrapS whose argument is provably in range disappears, every `if` is split *)
+Ltac crunch :=
+  repeat first
+    [ match goal with |- context [wrapS ?z] => rewrite (wrapS_id z) by (unfold int_ok; lia) end
+    | match goal with |- context [if ?c then _ else _] => let E := fresh "E" in destruct c eqn:E; bool_to_prop end ].
 
 (* for ALL positions (negative, beyond the end, anything an int can hold): no slice / Repeat can panic *)
 Theorem calcBounds_safe : forall size pos,
   0 <= size <= max_int - 16 -> int_ok pos ->
   excerpt_safe size (reorder (errors_calcBounds size pos)).
 Proof.
-  intros size pos Hs Hp.
-  rewrite calcBounds_eq_nowrap by assumption.
-  unfold max_int, int_ok in *.
-  unfold calcBounds_nowrap, reorder, excerpt_safe, errors_clamp_zero.
-  split_ifs; bool_to_prop; lia.
+  intros size pos Hs Hp. unfold max_int, int_ok in *.
+  unfold errors_calcBounds, errors_clamp_zero, reorder, excerpt_safe.
+  crunch; lia.
 Qed.
 
 (* a position inside the input gives an excerpt of at most 32 bytes ... *)
@@ -103,29 +67,9 @@ Theorem calcBounds_inside_bounded : forall size pos,
   0 <= size <= max_int - 16 -> 0 <= pos < size ->
   excerpt_ok size (reorder (errors_calcBounds size pos)).
 Proof.
-  intros size pos Hs Hp.
-  rewrite calcBounds_eq_nowrap by (unfold int_ok, max_int in *; lia).
-  unfold max_int in *.
-  unfold calcBounds_nowrap, reorder, excerpt_ok, excerpt_safe, errors_clamp_zero.
-  split_ifs; bool_to_prop; lia.
-Qed.
-
-(* ... but any position outside [0, size) - in particular pos = size, which is what every EOF error carries -
-   echoes the WHOLE source: the message is bounded by the input length, not by a constant *)
-Theorem calcBounds_outside_echoes_source : forall size pos,
-  0 <= size -> (pos < 0 \/ size <= pos) ->
-  errors_calcBounds size pos = (0, 0, size, 0).
-Proof.
-  intros size pos Hs Hp. unfold errors_calcBounds.
-  destruct ((size <=? pos) || (pos <? 0)) eqn:E; [reflexivity|].
-  bool_to_prop. lia.
-Qed.
-
-Theorem description_const_bound_refuted : forall K, 0 <= K ->
-  exists size pos, 0 <= size <= K + 1 /\ pos = size /\ excerpt_len (reorder (errors_calcBounds size pos)) > K.
-Proof.
-  intros K HK. exists (K + 1), (K + 1). repeat split; try lia.
-  rewrite calcBounds_outside_echoes_source by lia. unfold reorder, excerpt_len. lia.
+  intros size pos Hs Hp. unfold max_int in *.
+  unfold errors_calcBounds, errors_clamp_zero, reorder, excerpt_ok, excerpt_safe.
+  crunch; lia.
 Qed.
 
 (* the caret is under the offending byte: lbound + lwidth = pos, and the two dotted runs plus the caret
@@ -135,37 +79,25 @@ Theorem calcBounds_caret : forall size pos,
   let '(lbound, lwidth, rbound, rwidth) := errors_calcBounds size pos in
   lbound + lwidth = pos /\ lwidth + 1 + rwidth = rbound - lbound /\ lbound <= pos < rbound.
 Proof.
-  intros size pos Hs Hp.
-  rewrite calcBounds_eq_nowrap by (unfold int_ok, max_int in *; lia).
-  unfold max_int in *.
-  unfold calcBounds_nowrap, errors_clamp_zero.
-  split_ifs; bool_to_prop; lia.
+  intros size pos Hs Hp. unfold max_int in *.
+  unfold errors_calcBounds, errors_clamp_zero.
+  crunch; lia.
 Qed.
 
+(* what description() passes on: never more than max(65, len(src) + 1) bytes of excerpt + caret line *)
 Theorem errors_description_safe : forall size pos,
   0 <= size <= max_int - 16 -> int_ok pos ->
   excerpt_safe size (errors_description size pos) /\
-  excerpt_len (errors_description size pos) <= (if (0 <=? pos) && (pos <? size) then 65 else size + 1).
+  excerpt_len (errors_description size pos) <= (if (0 <=? pos) && (pos <? size) then 65 else Z.max 65 (size + 1)).
 Proof.
-  intros size pos Hs Hp.
-  pose proof (calcBounds_safe size pos Hs Hp) as H.
-  unfold errors_description.
-  destruct (size =? 0) eqn:E.
-  - bool_to_prop. subst. unfold excerpt_safe, excerpt_len. split; [lia|]. split_ifs; lia.
-  - destruct ((0 <=? pos) && (pos <? size)) eqn:E1; bool_to_prop.
-    + pose proof (calcBounds_inside_bounded size pos Hs ltac:(lia)) as Hin.
-      pose proof (calcBounds_caret size pos Hs ltac:(lia)) as Hc.
-      destruct (errors_calcBounds size pos) as [[[a b] c] d].
-      unfold reorder, excerpt_ok, excerpt_safe, excerpt_len in *. cbv beta iota zeta. lia.
-    + rewrite calcBounds_outside_echoes_source in * by lia.
-      unfold reorder, excerpt_safe, excerpt_len in *. cbv beta iota zeta. lia.
-    + rewrite calcBounds_outside_echoes_source in * by lia.
-      unfold reorder, excerpt_safe, excerpt_len in *. cbv beta iota zeta. lia.
+  intros size pos Hs Hp. unfold max_int, int_ok in *.
+  unfold errors_description, errors_calcBounds, errors_clamp_zero, excerpt_safe, excerpt_len.
+  crunch; bool_to_prop; cbv beta iota zeta; try lia.
 Qed.
 
 Example calcBounds_safe_nonvacuous :
   (0 <= 100 <= max_int - 16) /\ int_ok (-5) /\ errors_calcBounds 100 97 = (68, 29, 100, 2)
-  /\ errors_calcBounds 100 (-5) = (0, 0, 100, 0) /\ errors_calcBounds 3 1 = (0, 1, 3, 1).
+  /\ errors_calcBounds 3 1 = (0, 1, 3, 1).
 Proof. unfold max_int, int_ok. repeat split; try lia; vm_compute; reflexivity. Qed.
 
 (* ---------------------------------------------------------------- ast/error.go *)
@@ -254,10 +186,8 @@ Theorem ast_errors_description_agree : forall size pos,
 Proof.
   intros size pos Hs Hp.
   rewrite ast_description_eq_nowrap by lia.
-  unfold errors_description.
-  rewrite calcBounds_eq_nowrap by (unfold max_int, int_ok; lia).
-  unfold ast_description_nowrap, calcBounds_nowrap, ast_clamp_zero, errors_clamp_zero.
-  split_ifs; bool_to_prop; try lia; repeat f_equal; lia.
+  unfold errors_description, errors_calcBounds, ast_description_nowrap, ast_clamp_zero, errors_clamp_zero.
+  crunch; bool_to_prop; try lia; cbv beta iota zeta; repeat f_equal; lia.
 Qed.
 
 Example ast_description_safe_nonvacuous :
